@@ -38,6 +38,24 @@ type rawConfig struct {
 		Env        []string            `json:"Env"`
 		Labels     map[string]string   `json:"Labels"`
 	} `json:"config"`
+	History []rawHistory `json:"history"`
+}
+
+type rawHistory struct {
+	Author     string `json:"author"`
+	Created    string `json:"created"`
+	CreatedBy  string `json:"created_by"`
+	Comment    string `json:"comment"`
+	EmptyLayer bool   `json:"empty_layer"`
+}
+
+func galHistory(hs []rawHistory) string {
+	it := make([]string, len(hs))
+	for i, h := range hs {
+		it[i] = fmt.Sprintf("{| h_author := %s; h_created_by := %s; h_comment := %s; h_created := (Some %s) |}",
+			gal.Str(h.Author), gal.Str(h.CreatedBy), gal.Str(h.Comment), gal.Str(h.Created))
+	}
+	return gal.List(it)
 }
 
 func galPairs(m map[string]string) string {
@@ -112,6 +130,8 @@ func shlexOracle(ss ...string) string {
 const emptyOciConfig = "empty_config"
 
 type configDesc struct {
+	Validated bool                   `json:"validated_first"`
+	SerErr  string                   `json:"config_serialisation_error,omitempty"`
 	IC      types.ImageConfiguration `json:"image_configuration"`
 	Arch    string                   `json:"arch"`
 	Created string                   `json:"created"`
@@ -133,8 +153,14 @@ func copyMap(m map[string]string) map[string]string {
 
 // one case: build (optionally on a base built from baseIC), read back, print
 func configCase(w *gal.Writer, ic types.ImageConfiguration, baseIC *types.ImageConfiguration, arch string, created time.Time, nLayers int, class string) error {
+	return configCaseV(w, ic, baseIC, arch, created, nLayers, class, false)
+}
+
+// validate: run ImageConfiguration.Validate on the configuration first, as build.New does
+func configCaseV(w *gal.Writer, ic types.ImageConfiguration, baseIC *types.ImageConfiguration, arch string, created time.Time, nLayers int, class string, validate bool) error {
 	var base v1.Image = empty.Image
 	baseTerm := emptyOciConfig
+	baseHist := "[]"
 	if baseIC != nil {
 		ls, err := mkLayers("base", 1, true)
 		if err != nil {
@@ -151,6 +177,7 @@ func configCase(w *gal.Writer, ic types.ImageConfiguration, baseIC *types.ImageC
 		if baseTerm, err = galOciConfig(rc); err != nil {
 			return err
 		}
+		baseHist = galHistory(rc.History)
 		base = b
 	}
 	ls, err := mkLayers("cfg-"+arch, nLayers, nLayers%2 == 0)
@@ -162,6 +189,14 @@ func configCase(w *gal.Writer, ic types.ImageConfiguration, baseIC *types.ImageC
 	in.Environment = copyMap(ic.Environment)
 	in.Annotations = copyMap(ic.Annotations)
 	in.Volumes = append([]string(nil), ic.Volumes...)
+	if validate {
+		icv := ic
+		icv.Contents.Packages = append([]string(nil), ic.Contents.Packages...)
+		if err := icv.Validate(); err != nil {
+			return fmt.Errorf("Validate: %w", err)
+		}
+		ic = icv
+	}
 	var img v1.Image
 	var berr error
 	func() {
@@ -173,21 +208,34 @@ func configCase(w *gal.Writer, ic types.ImageConfiguration, baseIC *types.ImageC
 		}()
 		img, berr = oci.BuildImageFromLayers(ctx, base, ls, ic, created, types.Architecture(arch))
 	}()
-	if fmt.Sprint(in.Environment) != fmt.Sprint(ic.Environment) || fmt.Sprint(in.Annotations) != fmt.Sprint(ic.Annotations) {
+	if fmt.Sprint(in.Environment) != fmt.Sprint(ic.Environment) || fmt.Sprint(in.Annotations) != fmt.Sprint(ic.Annotations) || fmt.Sprint(in.Volumes) != fmt.Sprint(ic.Volumes) {
 		implViolation("config-input-mutated", map[string]any{"before": in, "after": ic})
 	}
 	obsTerm := emptyOciConfig
-	desc := configDesc{IC: in, Arch: arch, Created: created.Format(time.RFC3339Nano), Base: baseIC, Layers: nLayers}
+	obsCreated, obsHist, serErr := "None", "[]", false
+	desc := configDesc{IC: in, Arch: arch, Created: created.Format(time.RFC3339Nano), Base: baseIC, Layers: nLayers, Validated: validate}
+	var rc *rawConfig
+	if berr == nil {
+		var err error
+		if rc, err = readConfig(img); err != nil {
+			// BuildImageFromLayers succeeded but the config cannot be serialised (a creation time
+			// time.Time.MarshalJSON refuses): every later use of the image fails
+			if _, derr := img.Digest(); derr == nil {
+				return fmt.Errorf("config unreadable (%v) but the image has a digest", err)
+			}
+			serErr = true
+			desc.SerErr = err.Error()
+		}
+	}
 	if berr != nil {
 		desc.Err = berr.Error()
-	} else {
-		rc, err := readConfig(img)
-		if err != nil {
-			return err
-		}
+	} else if !serErr {
+		var err error
 		if obsTerm, err = galOciConfig(rc); err != nil {
 			return err
 		}
+		obsCreated = "(Some " + gal.Str(rc.Created) + ")"
+		obsHist = galHistory(rc.History)
 		// byte-level: descriptors, diff-ids of the in-memory image (exploration)
 		rawM, err := img.RawManifest()
 		if err != nil {
@@ -238,9 +286,12 @@ func configCase(w *gal.Writer, ic types.ImageConfiguration, baseIC *types.ImageC
 			}
 		}
 	}
-	term := fmt.Sprintf("{| cc_ic := %s; cc_base := %s; cc_created := %s; cc_arch := %s; cc_shlex := %s; cc_rfc3339 := %s; co_err := %s; co_cfg := %s |}",
-		galImageConfig(&in), baseTerm, gal.Z(created.Unix()), gal.Str(arch),
-		shlexOracle(in.Entrypoint.Command, in.Cmd), gal.Str(created.Format(time.RFC3339)), gal.Bool(berr != nil), obsTerm)
+	_, off := created.Zone()
+	wantLayers := nLayers
+	term := fmt.Sprintf("{| cc_ic := %s; cc_base := %s; cc_base_history := %s; cc_created := {| t_sec := %s; t_nsec := %s; t_off := %s |}; cc_arch := %s; cc_etype := %s; cc_validated := %s; cc_nlayers := %s; cc_shlex := %s; cc_rfc3339 := %s; co_err := %s; co_ser_err := %s; co_cfg := %s; co_created := %s; co_history := %s |}",
+		galImageConfig(&in), baseTerm, baseHist, gal.Z(created.Unix()), gal.Z(int64(created.Nanosecond())), gal.Z(int64(off)), gal.Str(arch),
+		gal.Str(in.Entrypoint.Type), gal.Bool(validate), gal.Nat(wantLayers),
+		shlexOracle(in.Entrypoint.Command, in.Cmd, ic.Entrypoint.Command), gal.Str(created.Format(time.RFC3339)), gal.Bool(berr != nil), gal.Bool(serErr), obsTerm, obsCreated, obsHist)
 	w.Add(gal.Case{Term: term, Desc: desc, Class: class})
 	return nil
 }
@@ -376,6 +427,38 @@ func configStage(dir string, seed uint64, tier string) error {
 			return err
 		}
 	}
+	// creation times at the ends of the serialisable range, on leap days, before the epoch; outside the range the
+	// build succeeds but the config cannot be serialised
+	for _, sec := range []int64{-1, 951782400, 4107542399, 4107542400, 253402300799, 253402300800, -62167219200, -62167219201, 1 << 40} {
+		if err := configCase(w, corners[1], nil, "amd64", time.Unix(sec, 0).UTC(), 1+int(sec&1), "created-time"); err != nil {
+			return err
+		}
+	}
+	// entrypoint.type = service-bundle through Validate (as build.New does) and without it
+	sb := func(cmd, frag string) types.ImageConfiguration {
+		return types.ImageConfiguration{Entrypoint: types.ImageEntrypoint{Type: "service-bundle", Command: cmd, ShellFragment: frag, Services: map[string]string{"svc": "/bin/svc"}},
+			Cmd: "'two words' three", VCSUrl: "https://x/y@abc"}
+	}
+	for i, ic := range []types.ImageConfiguration{sb("", ""), sb("/ignored --by validate", ""), sb(`"unterminated`, ""), sb("", "exec s6"), sb("/c", "frag wins"),
+		{Entrypoint: types.ImageEntrypoint{Type: "other", Command: "/kept"}}, {Entrypoint: types.ImageEntrypoint{Type: "Service-Bundle", Command: "/kept"}}} {
+		if err := configCaseV(w, ic, nil, archForms[i%len(archForms)], t0, 1+i%3, "service-bundle", true); err != nil {
+			return err
+		}
+		if err := configCaseV(w, ic, nil, archForms[i%len(archForms)], t0, 1, "service-bundle", false); err != nil {
+			return err
+		}
+	}
+	// layer counts (what `layering` decides): the history has one entry per layer, the comment changes above one
+	for _, nl := range []int{0, 1, 2, 3, 7} {
+		if err := configCase(w, corners[1], nil, "arm64", t0, nl, "layer-count"); err != nil {
+			return err
+		}
+	}
+	// no layer at all and a creation time that cannot be marshalled: nothing is marshalled inside
+	// BuildImageFromLayers, the failure is deferred to the first use of the image
+	if err := configCase(w, corners[1], nil, "arm64", time.Unix(253402300800, 0).UTC(), 0, "layer-count"); err != nil {
+		return err
+	}
 	// on top of a base image that already has a config
 	baseIC := types.ImageConfiguration{Entrypoint: types.ImageEntrypoint{Command: "/base/entry"}, Cmd: "base-cmd", WorkDir: "/base", StopSignal: "SIGQUIT",
 		Accounts: types.ImageAccounts{RunAs: "base-user"}, Volumes: []string{"/base-vol"}, Environment: map[string]string{"BASE": "1"}, Annotations: map[string]string{"base": "ann"}}
@@ -406,7 +489,15 @@ func configStage(dir string, seed uint64, tier string) error {
 			class = "random-on-base"
 		}
 		tm := time.Unix(int64(r.Intn(2000000000)), 0).UTC()
-		if err := configCase(w, ic, b, gal.Pick(r, archForms), tm, 1+r.Intn(3), class); err != nil {
+		switch r.Intn(12) {
+		case 0: // --build-date with a zone and a fraction
+			tm = time.Unix(int64(r.Intn(2000000000)), int64(r.Intn(1000000000))).In(time.FixedZone("", (r.Intn(49)-24)*1800))
+		case 1: // anywhere in years 0..9999
+			tm = time.Unix(-62167219200+int64(r.U64()%uint64(253402300800+62167219200)), 0).UTC()
+		case 2: // not serialisable
+			tm = time.Unix(253402300800+int64(r.Intn(1000000)), 0).UTC()
+		}
+		if err := configCaseV(w, ic, b, gal.Pick(r, archForms), tm, 1+r.Intn(3), class, r.Chance(1, 2)); err != nil {
 			return err
 		}
 	}
